@@ -95,7 +95,9 @@ func applySchema(data json.RawMessage, resolved *jsonschema.Resolved, forOutput 
 	if !forOutput {
 		v := make(map[string]any)
 		if len(data) > 0 {
-			if err := internaljson.Unmarshal(data, &v); err != nil {
+			// Keep integers exact (int64/uint64 rather than float64): the value
+			// is re-marshaled below and handed to the typed handler.
+			if err := internaljson.UnmarshalExactInts(data, &v); err != nil {
 				return nil, fmt.Errorf("unmarshaling arguments: %w", err)
 			}
 		}
@@ -107,7 +109,7 @@ func applySchema(data json.RawMessage, resolved *jsonschema.Resolved, forOutput 
 		unmarshaled = v
 	} else {
 		if len(data) > 0 {
-			if err := internaljson.Unmarshal(data, &unmarshaled); err != nil {
+			if err := internaljson.UnmarshalExactInts(data, &unmarshaled); err != nil {
 				return nil, fmt.Errorf("unmarshaling output: %w", err)
 			}
 		}
